@@ -22,7 +22,7 @@ theorem twoPi_field : twoPi (fieldArith T) = 2 * T.pi := by
   simp [twoPi, fieldArith]
 
 /-- At most one iteration: any fuel `≥ 1` suffices. -/
-theorem thetaLoop_field (ts te : K) (hpi : 0 < T.pi) (h1 : -T.pi ≤ te) (h2 : ts ≤ T.pi)
+theorem thetaLoop_field (ts te : K) (_hpi : 0 < T.pi) (h1 : -T.pi ≤ te) (h2 : ts ≤ T.pi)
     (fuel : Nat) :
     ∃ te', thetaLoop (fieldArith T) ts (fuel + 1) te = .ok te' ∧
       (te' = te ∨ te' = te + 2 * T.pi) ∧ ts ≤ te' := by
@@ -119,5 +119,18 @@ theorem bsplineLoop_spins (p : Nat) (hp : 3 ≤ p) :
       · exact hs c (List.mem_cons_of_mem _ hc)
     · exact ⟨hb.1, hb.2.1, by show p ≤ mid.size; rw [hm]; exact hb.2.2.1,
         by show p ≤ lc.size; rw [hl]; exact hb.2.2.2⟩
+
+/-- `approximate_bezier` on three control points in `spinArith`: no amount of fuel is enough. -/
+theorem approximateBezier_spins (fuel : Nat) (a b c : Pos Unit) :
+    approximateBezier spinArith fuel #[] #[a, b, c] emptyBez = .error .fuel := by
+  have hb : BufGE 3 (extendExact spinArith (emptyBez : Bez Unit) 3) :=
+    (extendExact_wf spinArith emptyBez 3 (emptyBez_wf)).2
+  have := bsplineLoop_spins 3 (Nat.le_refl 3) fuel [#[a, b, c]] #[]
+    (extendExact spinArith (emptyBez : Bez Unit) 3) (by simp)
+    (by intro x hx; simp at hx; subst hx; rfl) hb
+  unfold approximateBezier
+  simp only [bind, Except.bind]
+  have e : (#[a, b, c] : Array (Pos Unit)).size = 3 := rfl
+  rw [e, this]
 
 end Rosu.Curve
